@@ -157,9 +157,11 @@ class Baton:
         self._replay = None
         self._gl = {}
         self._after_store = {}
+        self.p_glob = 0.0
         if kind in ("random", "newline", "gstore"):
             self.p = float(policy[1])
             self.p_g = float(policy[2]) if kind == "gstore" else 0.0
+            self.p_glob = self.p_g  # the same bias applies to global state reached through seams
             self._draw_next()
             # "newline": additionally pre-empt with probability p_new at every iodata line that is
             # executed for the first time in this run (cold paths: first-use initialisation, memo fills)
@@ -220,6 +222,10 @@ class Baton:
 
     def seam_point(self, what):
         if self.cur is not None and threading.current_thread() is self.cur.thread:
+            if self.p_glob and what.startswith("global:") and self.rng.random() < self.p_glob:
+                # process-global state outside the repository was just saved / replaced / restored (e.g. the warnings
+                # machinery): the window before the next use is where non-nested save/restore pairs of two clients bite
+                self._next_switch = self.points + 1
             self._point(("seam", what))
 
     def _point(self, site):
